@@ -538,6 +538,99 @@ pub fn floating_strategy() -> impl Strategy<Value = Floating> {
         .prop_map(|(machine, latch, t, port, seed)| Floating { machine, latch, t, port, seed })
 }
 
+// ---------------------------------------------------------------------------------------
+// the extender's claims are consulted at every access
+
+#[derive(Clone, Debug, Serialize, Deserialize)]
+pub enum ClaimOp {
+    In(u16),
+    Out(u16, u8),
+    /// the host changes what the extender claims (exact port numbers); `replace` = a new extender
+    /// object through set_io_extender, otherwise the claim list of the attached one is edited
+    SetClaims { ports: Vec<u16>, replace: bool },
+}
+
+#[derive(Clone, Debug, Serialize, Deserialize)]
+pub struct ClaimCase {
+    pub machine: Machine,
+    pub ops: Vec<ClaimOp>,
+}
+
+/// "A host I/O extender receives exactly the ports it claims": judged at every access against the
+/// claims in force at that moment, also when the same port is accessed repeatedly while the host
+/// changes the claims in between.
+pub fn check_claims(c: &ClaimCase, rec: &mut Rec) -> Result<(), String> {
+    let mut e = mk_emu(&EmuOpts::new(c.machine));
+    let mut mm = MemModel::new(c.machine, mach::rom_images(c.machine));
+    mach::poke_bytes(&mut e, &mut mm, STUB, &[0xED, 0x78, 0xED, 0x79]);
+    e.set_io_extender(LoggingExtender::new(Vec::new(), 0x5A));
+    let mut claimed: Vec<u16> = Vec::new();
+    let mut last_port: Option<u16> = None;
+    let mut flips_on_same_port = 0u32;
+    let mut last_claim_state: std::collections::HashMap<u16, bool> = std::collections::HashMap::new();
+    for (k, op) in c.ops.iter().enumerate() {
+        match op {
+            ClaimOp::SetClaims { ports, replace } => {
+                let cl: Vec<(u16, u16)> = ports.iter().map(|p| (0xFFFFu16, *p)).collect();
+                if *replace {
+                    e.set_io_extender(LoggingExtender::new(cl, 0x5A));
+                } else {
+                    let x = e.io_extender().ok_or("harness: extender vanished")?;
+                    x.claims = cl;
+                }
+                claimed = ports.clone();
+            }
+            ClaimOp::In(port) | ClaimOp::Out(port, _) => {
+                let before = e.io_extender().map(|x| x.log.len()).unwrap_or(0);
+                let is_claimed = claimed.contains(port);
+                let want: Vec<IoLog> = match op {
+                    ClaimOp::In(_) => {
+                        let got = port_in(&mut e, *port)?;
+                        let v = (*port as u8) ^ ((*port >> 8) as u8) ^ 0x5A;
+                        if is_claimed && got != v {
+                            return Err(format!("op {}: IN from {:#06x}, which the extender claims now, gave {:#04x}; the extender returns {:#04x}", k, port, got, v));
+                        }
+                        if is_claimed { vec![IoLog::Read(*port, v)] } else { Vec::new() }
+                    }
+                    ClaimOp::Out(_, val) => {
+                        port_out(&mut e, *port, *val)?;
+                        if is_claimed { vec![IoLog::Write(*port, *val)] } else { Vec::new() }
+                    }
+                    _ => unreachable!(),
+                };
+                rec.eval();
+                let new_log: Vec<IoLog> = e.io_extender().map(|x| x.log[before.min(x.log.len())..].to_vec()).unwrap_or_default();
+                if new_log != want {
+                    return Err(format!(
+                        "op {} ({:?}): the extender claims {:04x?} at this moment, so it must log {:?}; it logged {:?}",
+                        k, op, claimed, want, new_log
+                    ));
+                }
+                if last_port == Some(*port) && last_claim_state.get(port).copied().map(|w| w != is_claimed).unwrap_or(false) {
+                    flips_on_same_port += 1;
+                }
+                last_claim_state.insert(*port, is_claimed);
+                last_port = Some(*port);
+            }
+        }
+    }
+    if flips_on_same_port > 0 {
+        rec.class("claim-changed-between-two-accesses-of-the-same-port");
+        rec.nontrivial(fnv(format!("{:?}", c).as_bytes()));
+    }
+    Ok(())
+}
+
+pub fn claims_strategy() -> impl Strategy<Value = ClaimCase> {
+    let pool = || prop_oneof![Just(0xCCCCu16), Just(0x00FE), Just(0x7FFD), Just(0xFFFD), Just(0x001F), Just(0x1234)];
+    let op = prop_oneof![
+        4 => pool().prop_map(ClaimOp::In),
+        4 => (pool(), any::<u8>()).prop_map(|(p, v)| ClaimOp::Out(p, v & 0x1F)),
+        3 => (proptest::collection::vec(pool(), 0..=3), any::<bool>()).prop_map(|(ports, replace)| ClaimOp::SetClaims { ports, replace }),
+    ];
+    (prop_oneof![Just(Machine::K48), Just(Machine::K128)], proptest::collection::vec(op, 2..=40)).prop_map(|(machine, ops)| ClaimCase { machine, ops })
+}
+
 fn configs(seed: u64, tier_thorough: bool) -> Vec<Config> {
     let mut v = Vec::new();
     for (machine, kempston, mouse) in [
@@ -591,18 +684,20 @@ pub fn run(run: &mut Run) {
     run.enumerate("address-sweep", items, true, check_block);
     let t = run.tier;
     run.explore("floating-bus", t.pick(60_000, 20_000_000), floating_strategy, check_floating);
+    run.explore("extender-claims-change", t.pick(20_000, 1_000_000), claims_strategy, check_claims);
 }
 
 pub fn replay(run: &mut Run, phase: &str, case: &serde_json::Value) -> Result<(), String> {
     match phase {
         "address-sweep" => run.replay_one::<Block, _>(phase, case, check_block),
         "floating-bus" => run.replay_one::<Floating, _>(phase, case, check_floating),
+        "extender-claims-change" => run.replay_one::<ClaimCase, _>(phase, case, check_claims),
         _ => Err(format!("unknown phase {}", phase)),
     }
 }
 
 pub const LEVEL: &str = "exploration";
-pub const RULE: &str = "address-sweep: all 65536 port addresses x {IN A,(C), OUT (C),A} executed by the emulated CPU on 6 device configurations (machine x Kempston x mouse) plus configurations with an I/O extender whose claim predicate is generated (incl. claims overlapping ULA, paging and AY addresses); device states are made distinguishable first (distinct half-rows, joystick byte, mouse counters, 16 distinct AY registers, border, paging latch). An address is judged for routing only if the decode predicates of the property select exactly one device for that direction (or none: reads must give 0xFF in border time, writes must change nothing); every access also checks that no other device's state changed and that the extender log contains exactly the claimed accesses. floating-bus: unclaimed reads at generated beam positions and screen contents, both 128K screen banks. non-trivial = judged address other than the canonical ports the pinned tests use (floating: read inside the fetch window); distinct = (direction, address, configuration)";
+pub const RULE: &str = "address-sweep: all 65536 port addresses x {IN A,(C), OUT (C),A} executed by the emulated CPU on 6 device configurations (machine x Kempston x mouse) plus configurations with an I/O extender whose claim predicate is generated (incl. claims overlapping ULA, paging and AY addresses); device states are made distinguishable first (distinct half-rows, joystick byte, mouse counters, 16 distinct AY registers, border, paging latch). An address is judged for routing only if the decode predicates of the property select exactly one device for that direction (or none: reads must give 0xFF in border time, writes must change nothing); every access also checks that no other device's state changed and that the extender log contains exactly the claimed accesses. floating-bus: unclaimed reads at generated beam positions and screen contents, both 128K screen banks. extender-claims-change: histories of IN/OUT over a small pool of ports interleaved with the host changing what the extender claims (editing the attached extender or attaching a new one); after every access the extender's log must hold exactly what the claims in force at that moment demand. non-trivial = judged address other than the canonical ports the pinned tests use (floating: read inside the fetch window); distinct = (direction, address, configuration)";
 pub const ASSUMPTIONS: &[&str] = &[
     "decode predicates are written from the property text; the Kempston mouse is judged only at xxDF addresses with (A8,A10) in {(0,0),(1,0),(1,1)}, and any other A0=1/A5=0/A7=1 address is treated as possibly-mouse (not judged) when a mouse is attached; addresses with A7=0 are never mouse addresses",
     "device state is observed through border_color(), the paging hook and the canonical AY ports 0xFFFD/0xBFFD",
